@@ -12,6 +12,7 @@ Definition toks_of (t : stok2) (l c : N) : list tokp :=
   | TName w => [mkTok w l c false]
   | TOp x => [mkTok [x] l c false]
   | TOp2 a b => [mkTok [a] l c false; mkTok [b] l (c + 1) false]
+  | TOp3 a b d => [mkTok [a] l c false; mkTok [b] l (c + 1) false; mkTok [d] l (c + 2) false]
   end.
 
 Fixpoint p1 (ws : list str) (toks : list stok2) (line col : N) : list tokp :=
@@ -44,18 +45,33 @@ Proof.
   contradiction.
 Qed.
 
+Lemma S3_in a b c : op3_ok a b c = true -> In (a, b, c) S3.
+Proof.
+  unfold op3_ok. intros H. apply existsb_exists in H. destruct H as ([[x y] z] & Hin & H).
+  cbn [fst snd] in H. apply andb_true_iff in H. destruct H as [H H3]. apply andb_true_iff in H. destruct H as [H1 H2].
+  apply N.eqb_eq in H1. apply N.eqb_eq in H2. apply N.eqb_eq in H3. subst. exact Hin.
+Qed.
+
+Lemma S3_facts a b c : In (a, b, c) S3 ->
+  op_ok a = true /\ op_ok b = true /\ op_ok c = true /\ a <> 47 /\ b <> 47 /\ c <> 47.
+Proof.
+  intros H. cbn [S3 In] in H.
+  repeat (destruct H as [H|H]; [injection H as <- <- <-; vm_compute; repeat split; congruence|]).
+  contradiction.
+Qed.
+
 (* what may follow token a in the rendering *)
 Definition follows2_ok (a : stok2) (s : str) : Prop :=
   match a with
   | TName _ => stops_name s
   | TOp c => c = 47 -> no_comment_start s
-  | TOp2 _ _ => True
+  | TOp2 _ _ | TOp3 _ _ _ => True
   end.
 
 Lemma lx_tok2 t s line col : stok2_ok t = true -> follows2_ok t s ->
   lx MCode (stok2_str t ++ s) line col 0 = toks_of t line col ++ lx MCode s line (col + len (stok2_str t)) 0.
 Proof.
-  intros Ht Hf. destruct t as [w|c|a b]; cbn [stok2_str stok2_ok follows2_ok toks_of] in *.
+  intros Ht Hf. destruct t as [w|c|a b|a b d]; cbn [stok2_str stok2_ok follows2_ok toks_of] in *.
   - destruct w as [|ch w]; [discriminate|].
     rewrite (lx_name (ch :: w)); [reflexivity | congruence | exact Ht | exact Hf].
   - apply andb_true_iff in Ht. destruct Ht as [Ht _]. cbn [app]. rewrite (lx_op c Ht s line col Hf). reflexivity.
@@ -63,12 +79,16 @@ Proof.
     cbn [app]. rewrite (lx_op a Ha).
     + rewrite (lx_op b Hb); [|congruence]. cbn [app]. do 3 f_equal. unfold len. cbn [length]. lia.
     + intros E. rewrite (Ha47 E). exact I.
+  - destruct (S3_facts a b d (S3_in a b d Ht)) as (Ha & Hb & Hd & Ha47 & Hb47 & Hd47).
+    cbn [app]. rewrite (lx_op a Ha) by congruence. rewrite (lx_op b Hb) by congruence. rewrite (lx_op d Hd) by congruence.
+    cbn [app]. unfold len. cbn [length].
+    replace (col + 1 + 1) with (col + 2) by lia. replace (col + 2 + 1) with (col + N.of_nat 3) by lia. reflexivity.
 Qed.
 
 Lemma follows2_blank a c s : is_blank c = true -> follows2_ok a (c :: s).
 Proof.
   intros Hb. destruct (blank_facts c Hb) as (Hn & H39 & H47 & H42 & _).
-  destruct a as [w|o|x y]; cbn [follows2_ok stops_name]; auto.
+  destruct a as [w|o|x y|x y z]; cbn [follows2_ok stops_name]; auto.
   intros _. cbn [no_comment_start].
   destruct c as [|p]; [exact I|].
   do 6 (destruct p as [p|p|]; try exact I); congruence.
@@ -78,17 +98,18 @@ Lemma first_char t : stok2_ok t = true ->
   exists ch r, stok2_str t = ch :: r /\
     match t with TName _ => is_name_char ch = true | _ => op_ok ch = true end.
 Proof.
-  destruct t as [w|c|a b]; cbn [stok2_ok stok2_str]; intros H.
+  destruct t as [w|c|a b|a b d]; cbn [stok2_ok stok2_str]; intros H.
   - destruct w as [|ch w]; [discriminate|]. cbn [forallb] in H. apply andb_true_iff in H.
     exists ch, w. tauto.
   - apply andb_true_iff in H. exists c, []. tauto.
   - destruct (S2_facts a b (S2_in a b H)) as (Ha & _). exists a, [b]. tauto.
+  - destruct (S3_facts a b d (S3_in a b d H)) as (Ha & _). exists a, [b; d]. tauto.
 Qed.
 
 Lemma follows2_tok a b s : stok2_ok b = true -> needs_sep2 a b = false -> follows2_ok a (stok2_str b ++ s).
 Proof.
   intros Hb Hf. destruct (first_char b Hb) as (ch & r & -> & Hch). cbn [app].
-  destruct a as [w|o|x y]; cbn [follows2_ok]; auto.
+  destruct a as [w|o|x y|x y z]; cbn [follows2_ok]; auto.
   - destruct b; cbn [needs_sep2] in Hf; try discriminate;
       destruct (op_facts ch Hch) as (Hn & H39 & _); cbn [stops_name]; auto.
   - destruct b; cbn [needs_sep2] in Hf; try discriminate.
@@ -147,7 +168,7 @@ Proof.
     cbn [forallb] in Hok. apply andb_true_iff in Hok. destruct Hok as [Ht Hr].
     rewrite !in_app_iff. intros [E|[E|E]].
     + exact (Hbl w Hw E).
-    + destruct t as [n|c|a b]; cbn [stok2_str stok2_ok] in *.
+    + destruct t as [n|c|a b|a b d]; cbn [stok2_str stok2_ok] in *.
       * destruct n as [|ch n]; [discriminate|].
         rewrite forallb_forall in Ht. specialize (Ht _ E).
         destruct (name_facts 13 Ht) as (_ & _ & _ & H & _). congruence.
@@ -157,6 +178,11 @@ Proof.
         destruct E as [E|[E|[]]]; subst.
         -- destruct (op_facts 13 Ha) as (_ & _ & H & _). congruence.
         -- destruct (op_facts 13 Hb) as (_ & _ & H & _). congruence.
+      * destruct (S3_facts a b d (S3_in a b d Ht)) as (Ha & Hb & Hd & _).
+        destruct E as [E|[E|[E|[]]]]; subst.
+        -- destruct (op_facts 13 Ha) as (_ & _ & H & _). congruence.
+        -- destruct (op_facts 13 Hb) as (_ & _ & H & _). congruence.
+        -- destruct (op_facts 13 Hd) as (_ & _ & H & _). congruence.
     + exact (IH ws' Hws' Hr E).
 Qed.
 
@@ -183,7 +209,7 @@ Proof.
   induction toks as [|t r IH]; intros ws line col Hl; destruct ws as [|w ws']; try reflexivity.
   cbn [p1]. destruct (adjust_spec w line col) as [Hge _]. destruct (adjust w line col) as [l1 c1]. cbn [fst] in Hge.
   rewrite existsb_app. apply orb_false_iff. split; [|apply IH; lia].
-  destruct t as [n|c|a b]; cbn [toks_of existsb]; rewrite ?marker_line by (cbn [tline]; lia); reflexivity.
+  destruct t as [n|c|a b|a b d]; cbn [toks_of existsb]; rewrite ?marker_line by (cbn [tline]; lia); reflexivity.
 Qed.
 
 (* ------------------------------------------------------------------ phase 2 *)
@@ -247,6 +273,25 @@ Proof.
     destruct rest as [|n2 r]; [reflexivity|]. rewrite Hn. reflexivity.
 Qed.
 
+Lemma number_op3 x y z l c : op_ok x = true -> tok_is_number (mkTok [x; y; z] l c false) = false.
+Proof.
+  intros H. unfold tok_is_number, is_number. cbn [tstr tcomment negb andb].
+  destruct (op_facts x H) as (Hn & _). revert Hn. unf. lia.
+Qed.
+
+(* shift-assign: a further token must follow and must not be a lone = ; ellipsis: not after a number *)
+Lemma decide_shassign pn a l c X : (a = 60 \/ a = 62) -> match X with e :: _ => op_of e <> 61 | [] => False end ->
+  decide pn (mkTok [a] l c false) (mkTok [a] l (c + 1) false :: mkTok [61] l (c + 2) false :: X) = AMerge3 [a; a; 61].
+Proof.
+  intros Ha He. destruct X as [|e rest]; [contradiction|].
+  destruct Ha as [->| ->]; unfold decide, adjacent; cbn [tline tcol]; rewrite !N.eqb_refl; cbn;
+    (assert (E : (op_of e =? 61) = false) by lia); rewrite E; reflexivity.
+Qed.
+
+Lemma decide_ellipsis l c rest :
+  decide false (mkTok [46] l c false) (mkTok [46] l (c + 1) false :: mkTok [46] l (c + 2) false :: rest) = AEllipsis.
+Proof. unfold decide. cbn [tline tcol]. cbn. rewrite !N.eqb_refl. reflexivity. Qed.
+
 Lemma not_adjacent T nx w l c : w <> [] -> tline T = l -> tcol T + 1 = c ->
   tline nx = fst (adjust w l c) -> tcol nx = snd (adjust w l c) -> adjacent T nx = false.
 Proof.
@@ -266,10 +311,11 @@ Lemma p1_head ws b r l c : stok2_ok b = true ->
 Proof.
   intros Hb. destruct ws as [|w ws']; [reflexivity|]. cbn [p1].
   destruct (adjust w l c) as [l1 c1] eqn:E.
-  destruct b as [n|x|x y]; cbn [toks_of app head_op stok2_ok] in *; exists w, ws'; rewrite ?E; cbn [fst snd tline tcol].
+  destruct b as [n|x|x y|x y z]; cbn [toks_of app head_op stok2_ok] in *; exists w, ws'; rewrite ?E; cbn [fst snd tline tcol].
   - repeat split. apply op_of_name; [destruct n; [discriminate|congruence] | destruct n; [discriminate|exact Hb]].
   - apply andb_true_iff in Hb. destruct Hb as [Hb _]. repeat split; [apply op_of_op; exact Hb | apply number_op; exact Hb].
   - destruct (S2_facts x y (S2_in x y Hb)) as (Hx & _). repeat split; [apply op_of_op; exact Hx | apply number_op; exact Hx].
+  - destruct (S3_facts x y z (S3_in x y z Hb)) as (Hx & _). repeat split; [apply op_of_op; exact Hx | apply number_op; exact Hx].
 Qed.
 
 Lemma combine_p1 toks : forall ws line col prev,
@@ -293,11 +339,13 @@ Proof.
     assert (Hexp' : no_exp r = true).
     { destruct t; cbn [no_exp] in Hexp; auto. destruct r; [reflexivity|]. apply andb_true_iff in Hexp. tauto. }
     cbn [ctx_ok] in Hctx. apply andb_true_iff in Hctx. destruct Hctx as [Hctx Hctx'].
-    apply andb_true_iff in Hctx. destruct Hctx as [Hshift Hincdec].
+    apply andb_true_iff in Hctx. destruct Hctx as [Hshift Hctx3].
+    apply andb_true_iff in Hctx3. destruct Hctx3 as [Hctx3 Hell].
+    apply andb_true_iff in Hctx3. destruct Hctx3 as [Hincdec Hsha].
     pose proof (fun pv (E : prev_num pv = is_num_tok t) =>
                   IH ws' l1 (c1 + len (stok2_str t)) pv Hlen Hws' Hr Hsep' Hexp'
                      (eq_ind_r (fun b => ctx_ok b r = true) Hctx' E)) as IH'.
-    destruct t as [n|x|a b]; cbn [toks_of app stok2_str].
+    destruct t as [n|x|a b|a b d]; cbn [toks_of app stok2_str].
     + (* name *)
       assert (Hne : n <> []) by (destruct n; [discriminate|congruence]).
       assert (Hnc : forallb is_name_char n = true) by (destruct n; [discriminate|exact Ht]).
@@ -312,7 +360,7 @@ Proof.
         cbn [no_exp] in Hexp. apply andb_true_iff in Hexp. destruct Hexp as [Hx _].
         apply negb_true_iff in Hx. unfold exp_end in Hx.
         unfold tok_is_number. cbn [tstr tcomment negb andb].
-        destruct b as [m|y|y z]; cbn [head_op starts_pm] in *; [apply andb_false_r | exact Hx | exact Hx].
+        destruct b as [m|y|y z|y z u]; cbn [head_op starts_pm] in *; [apply andb_false_r | exact Hx | exact Hx | exact Hx].
       * destruct (p1 ws' r l1 (c1 + len n)); [exact I|].
         rewrite (op_of_name n l1 c1 Hne Hnc). reflexivity.
     + (* one-character operator *)
@@ -326,8 +374,11 @@ Proof.
         pose proof (p1_head ws' b r' l1 (c1 + len [x]) Hb) as Hh.
         destruct (p1 ws' (b :: r') l1 (c1 + len [x])) as [|nx rest]; [exact I|].
         destruct Hh as (w1 & ws'' & -> & Hop & Hl & Hc & _).
-        destruct b as [m|y|y z]; cbn [head_op] in Hop.
+        destruct b as [m|y|y z|y z u]; cbn [head_op] in Hop.
         -- rewrite Hop, N.eqb_refl, orb_true_r. reflexivity.
+        -- cbn [sep2_ok needs_sep2 negb orb] in Hsep. apply andb_true_iff in Hsep. destruct Hsep as [Hs _].
+           rewrite (not_adjacent (mkTok [x] l1 c1 false) nx w1 l1 (c1 + len [x]));
+             [rewrite orb_true_r; reflexivity | destruct w1; [discriminate|congruence] | reflexivity | reflexivity | exact Hl | exact Hc].
         -- cbn [sep2_ok needs_sep2 negb orb] in Hsep. apply andb_true_iff in Hsep. destruct Hsep as [Hs _].
            rewrite (not_adjacent (mkTok [x] l1 c1 false) nx w1 l1 (c1 + len [x]));
              [rewrite orb_true_r; reflexivity | destruct w1; [discriminate|congruence] | reflexivity | reflexivity | exact Hl | exact Hc].
@@ -353,6 +404,42 @@ Proof.
         pose proof (p1_head ws' b2 r' l1 (c1 + len [a; b]) Hb2) as Hh.
         destruct (p1 ws' (b2 :: r') l1 (c1 + len [a; b])) as [|nx rest]; [exact I|].
         destruct Hh as (w1 & ws'' & _ & _ & _ & _ & Hnum). rewrite Hnum. apply negb_true_iff. exact Hnx.
+    + (* three-character operator *)
+      pose proof (S3_in a b d Ht) as Hin.
+      destruct (S3_facts a b d Hin) as (Ha & _).
+      assert (IHn : forall T, tstr T = [a; b; d] -> tline T = l1 -> tcol T = c1 -> tcomment T = false ->
+                    combine (Some T) (p1 ws' r l1 (c1 + len [a; b; d])) = merged ws' r l1 (c1 + len [a; b; d])).
+      { intros T HT _ _ HcT. apply IH'. cbn [prev_num is_num_tok]. unfold tok_is_number. rewrite HcT, HT. cbn [negb andb].
+        unfold is_number. destruct (op_facts a Ha) as (Hn & _). clear - Hn. revert Hn. unf. lia. }
+      cbn [S3 In] in Hin. destruct Hin as [Hin|[Hin|[Hin|[]]]]; injection Hin as <- <- <-.
+      * (* <<= *)
+        cbn [is_shassign N.eqb Pos.eqb negb orb] in Hsha.
+        destruct r as [|b2 r']; [discriminate|].
+        cbn [forallb] in Hr. apply andb_true_iff in Hr. destruct Hr as [Hb2 _].
+        pose proof (p1_head ws' b2 r' l1 (c1 + len [60; 60; 61]) Hb2) as Hh.
+        set (PR := p1 ws' (b2 :: r') l1 (c1 + len [60; 60; 61])) in *.
+        assert (HX : match PR with e :: _ => op_of e <> 61 | [] => False end).
+        { destruct PR as [|nx rest]; [destruct ws'; [discriminate|congruence]|].
+          destruct Hh as (w1 & ws'' & _ & Hop & _). rewrite Hop. clear - Hsha. lia. }
+        cbn [combine]. replace (c1 + 1 + 1) with (c1 + 2) by (clear; lia).
+        rewrite (decide_shassign _ 60 l1 c1 PR (or_introl eq_refl) HX).
+        cbn [setstr tline tcol tcomment]. f_equal. apply IHn; reflexivity.
+      * (* >>= *)
+        cbn [is_shassign N.eqb Pos.eqb negb orb] in Hsha.
+        destruct r as [|b2 r']; [discriminate|].
+        cbn [forallb] in Hr. apply andb_true_iff in Hr. destruct Hr as [Hb2 _].
+        pose proof (p1_head ws' b2 r' l1 (c1 + len [62; 62; 61]) Hb2) as Hh.
+        set (PR := p1 ws' (b2 :: r') l1 (c1 + len [62; 62; 61])) in *.
+        assert (HX : match PR with e :: _ => op_of e <> 61 | [] => False end).
+        { destruct PR as [|nx rest]; [destruct ws'; [discriminate|congruence]|].
+          destruct Hh as (w1 & ws'' & _ & Hop & _). rewrite Hop. clear - Hsha. lia. }
+        cbn [combine]. replace (c1 + 1 + 1) with (c1 + 2) by (clear; lia).
+        rewrite (decide_shassign _ 62 l1 c1 PR (or_intror eq_refl) HX).
+        cbn [setstr tline tcol tcomment]. f_equal. apply IHn; reflexivity.
+      * (* ... *)
+        cbn [is_ellipsis N.eqb Pos.eqb negb orb] in Hell. apply negb_true_iff in Hell.
+        cbn [combine]. replace (c1 + 1 + 1) with (c1 + 2) by (clear; lia). unfold prev_num in Hell. rewrite Hell. rewrite decide_ellipsis.
+        cbn [setstr tline tcol tcomment]. f_equal. apply IHn; reflexivity.
 Qed.
 
 (* ------------------------------------------------------------------ the theorem *)
